@@ -316,8 +316,13 @@ func vfH_fault_read() {
 	tier := vfParam("tier", 0)
 	readerIsServer := vfChoose(2) == 1
 	pmce := false
-	g := &vfGen{fromClient: readerIsServer}
 	shape := vfChoose(4)
+	if vfParam("focus", 0) == 1 {
+		// the abandon program on a message whose payload looks like frames itself:
+		// whatever is left of it must never be parsed as a frame header
+		readerIsServer, shape = false, 4
+	}
+	g := &vfGen{fromClient: readerIsServer}
 	R := 125
 	switch shape {
 	case 0: // one unfragmented message, then a fragmented one
@@ -327,6 +332,9 @@ func vfH_fault_read() {
 		g.message(TextMessage, vfBytes(R+40), false, 0, []int{R + 20, -1}, -1, 0, nil)
 	case 2: // 16-bit length, unfragmented, larger than the read buffer
 		g.message(BinaryMessage, vfBytes(R+10), false, 0, []int{-1}, -1, 0, nil)
+	case 4: // payload that embeds a well-formed unmasked text frame "X" and a close frame
+		g.message(BinaryMessage, []byte{'a', 0x81, 0x01, 'X', 0x88, 0x00}, false, 0, []int{-1}, -1, 0, nil)
+		g.message(TextMessage, vfBytes(2), false, 0, []int{-1}, -1, 0, nil)
 	case 3: // compressed (stored-block model), fragmented
 		pmce = true
 		g.message(TextMessage, vfBytes(4), true, 0, []int{3, -1}, -1, 0, nil)
@@ -346,7 +354,11 @@ func vfH_fault_read() {
 		cuts = vfDedup(cuts, T)
 	}
 	cut := vfPick(cuts)
-	kind := 1 + vfChoose(5)
+	focus := vfParam("focus", 0) // 1: only the abandon program under a transient fault (explored first, on its own)
+	kind := vfFaultTransient
+	if focus == 0 {
+		kind = 1 + vfChoose(5)
+	}
 	tc := vfNewConn(g.wire)
 	tc.cut = cut
 	tc.rfault = kind
@@ -365,7 +377,10 @@ func vfH_fault_read() {
 		rc.newDecompressionReader = decompressNoContextTakeover
 	}
 	rc.SetPingHandler(func(string) error { return nil })
-	rp := vfChoose(3)
+	rp := 2
+	if focus == 0 {
+		rp = vfChoose(3)
+	}
 	a := vfPick([]int{1, R, 2 * R})
 	var nrErr error
 	failed := false
